@@ -29,6 +29,11 @@
 (*    "${V1}" "${V2}" "${HP}" "${CC}" "${U}"    references                 *)
 (*    "P" "Q" "C"              the texts the variables V1, HP, CC hold;    *)
 (*                             V2 holds the text ${V1}; U is unset         *)
+(*    "$NS" "$NU" "$$" "$5" "$" "${" "${}" "$(X)"   text with a dollar     *)
+(*                             that is NOT a reference (NS is a variable   *)
+(*                             that is set, NU one that is not): only      *)
+(*                             "${" name "}" with a non-empty name is one  *)
+(*    "."                      a separator between such pieces             *)
 (*    "D"                      the setting's documented default            *)
 (*    "Z"                      the zero value (empty string, 0, 0s, ..)    *)
 (*    "true" "false"           booleans                                    *)
@@ -91,6 +96,13 @@ EnvVal == [v \in {"${V1}", "${V2}", "${HP}", "${CC}"} |->
                [] v = "${CC}" -> <<"C">>]         \* text with a colon in it
 Refs == DOMAIN EnvVal \cup {"${U}"}               \* ${U}: the variable is not set
 
+\* Text with a dollar in it that is not of the form ${NAME}: a bare $NAME
+\* (NS: a variable that is set, NU: one that is not), the shell's special
+\* parameters, a dollar at the end, an unterminated and an empty ${, $(..).
+\* None of it is a reference; it belongs to the value (passwords, tokens,
+\* header values contain such text) and must come through verbatim.
+DollarLits == {"$NS", "$NU", "$$", "$5", "$", "${", "${}", "$(X)"}
+
 \* the combinations (class, has flag+env, kind of default) that exist in the
 \* configuration struct; the harness reports an error (not a violation) if
 \* one of them has no member any more
@@ -108,15 +120,17 @@ Combos ==
 
 \* placements of the literal and of ${VAR} a source can use
 Placements(c, s) ==
-  (CASE c = "string"     -> {"plain", "whole", "infix", "unset", "infixunset", "nested"}
+  (CASE c = "string"     -> {"plain", "whole", "infix", "unset", "infixunset", "nested", "dollarA", "dollarB"}
      [] c = "hostport"   -> {"plain", "whole", "infix", "unset", "infixunset", "nested", "wholehp", "infixcc"}
-     [] c \in {"stringlist", "stringmap"} -> {"one", "two", "twounset"}
+     [] c \in {"stringlist", "stringmap"} -> {"one", "two", "twounset", "twodollar"}
      [] c \in {"int", "duration", "memsize"} -> {"plain"}
      [] c = "bool"       -> {"true", "false"})
   \cup (IF s \in Files /\ c \in {"string", "int", "duration", "memsize"} THEN {"zero"} ELSE {})
 
 AllPlacements == {"plain", "whole", "infix", "unset", "infixunset", "nested", "wholehp", "infixcc",
-                  "one", "two", "twounset", "true", "false", "zero"}
+                  "one", "two", "twounset", "true", "false", "zero",
+                  "dollarA", "dollarB", "twodollar"}
+DollarPlacements == {"dollarA", "dollarB", "twodollar"}
 
 \* the value source s gives when it uses placement p
 Value(p, s) ==
@@ -131,6 +145,11 @@ Value(p, s) ==
     [] p = "one"        -> << <<Lit[s]>> >>
     [] p = "two"        -> << <<Lit[s]>>, <<Pre[s], "${V1}", Suf[s]>> >>
     [] p = "twounset"   -> << <<Pre[s], "${U}", Suf[s]>>, <<"${V2}">> >>
+    \* literal dollars next to well-formed references (an unterminated ${ can only
+    \* stand at the end: followed by a } it would be the start of a reference)
+    [] p = "dollarA"    -> << <<Pre[s], "${V1}", ".", "$NS", ".", "$NU", ".", "$$", ".", "$5", ".", Suf[s], "${">> >>
+    [] p = "dollarB"    -> << <<"$(X)", ".", "${}", ".", Pre[s], "${U}", "$NS", ".", "${V1}", Suf[s], "$">> >>
+    [] p = "twodollar"  -> << <<Lit[s], "$$", ".", "$NS">>, <<"$5", ".", Pre[s], "${V1}", Suf[s], "${">> >>
     [] p = "true"       -> << <<"true">> >>
     [] p = "false"      -> << <<"false">> >>
     [] p = "zero"       -> << <<"Z">> >>
@@ -182,6 +201,8 @@ Opts(c, ce, x) == IF ~ce /\ x \notin Files THEN {"none"} ELSE {"none"} \cup Plac
 
 SrcOK(c, ce, s) ==
   /\ \A x \in SourceSet : s[x] \in Opts(c, ce, x)
+  \* a source with literal dollars meets only the same placement or plain text (bound)
+  /\ \A x, y \in SourceSet : s[x] \in DollarPlacements /\ s[y] \notin {"none", "zero", "plain", "one"} => s[y] = s[x]
   /\ Uniform /\ c = "string" => Cardinality({s[x] : x \in SourceSet} \ {"none", "zero"}) <= 1
   \* hostport: the value under test is the winner's; sources below it are absent
   \* or plainly valid (validation also looks at file values that are overridden)
@@ -231,7 +252,7 @@ TypeOK ==
   /\ done \in BOOLEAN
   /\ accepted \in {"?", "na", "yes", "no"}
   /\ \A i \in DOMAIN eff : \A j \in DOMAIN eff[i] :
-        eff[i][j] \in {"?", "D", "Z", "P", "Q", "C", "true", "false"} \cup Refs
+        eff[i][j] \in {"?", "D", "Z", "P", "Q", "C", "true", "false", "."} \cup Refs \cup DollarLits
                       \cup UNION {OwnToks(s) : s \in SourceSet}
 
 IdealStep == done /\ eff = Ideal
@@ -266,6 +287,13 @@ SetVarsExpanded ==
 \* ... and the reference of an unset variable is left unchanged
 UnsetLeftAlone ==
   IdealStep => ("${U}" \in Toks(Raw) <=> "${U}" \in Toks(eff))
+
+\* C29 expansion touches nothing but ${NAME}: every other piece of text with a
+\* dollar in it is in the result exactly where the winner wrote it
+DollarsOf(e) == SelectSeq(e, LAMBDA t : t \in DollarLits)
+DollarLiteralsVerbatim ==
+  IdealStep /\ class \in StringClasses =>
+     \A i \in DOMAIN eff : DollarsOf(eff[i]) = DollarsOf(Raw[i])
 
 \* other kinds are taken as they are
 OtherKindsVerbatim ==
